@@ -276,7 +276,7 @@ func writeStats() {
 	}
 	collMu.Lock()
 	defer collMu.Unlock()
-	var all []Stats
+	all := []Stats{}
 	names := make([]string, 0, len(collectors))
 	for n := range collectors {
 		names = append(names, n)
